@@ -119,7 +119,14 @@ func runC02(o *Out, rng *Rng, tier string, replay string) {
 	for c := 0; c < n; c++ {
 		r := rng.Fork()
 		cfg := engCfg{nTrav: r.Range(1, 5), days: r.Range(10, 40), promises: -1}
-		s := genEngine(r, wd, "C02", cfg)
+		var s *engSession
+		if c%6 == 5 {
+			burstProj = "C02"
+			s = genC08Burst(r, wd) // a kept promise whose entry leaves the book before it is used
+			burstProj = "C08"
+		} else {
+			s = genEngine(r, wd, "C02", cfg)
+		}
 		keepFails(o, s, "C02")
 		engNote(o, s)
 		nt := s.stat["c02_grounded_cases"] > 0 && s.stat["c02_cleared_at_trip_start"] > 0
